@@ -62,7 +62,20 @@ Mat expm(const Mat & A)
 Mat inv(const Mat & A)
 {
   Eigen::FullPivLU<Mat> lu(A);
-  return lu.inverse();
+  Mat X = lu.inverse();
+  // Newton-Schulz refinement: LU leaves an error of eps*cond(A) in every entry; for group matrices with a large
+  // translation part (cond ~ |p|^2) that is far above the structured error eps*|A||X| a refinement step reaches
+  if (A.rows() == A.cols() && X.allFinite()) {
+    const Mat I = Mat::Identity(A.rows(), A.cols());
+    for (int it = 0; it < 2; ++it) {
+      const Mat E = I - A * X;
+      if (!(maxabs(E) < 0.5L)) break;
+      const Mat Xn = X + X * E;
+      if (!(maxabs(I - A * Xn) <= maxabs(E))) break;
+      X = Xn;
+    }
+  }
+  return X;
 }
 
 Vec solve(const Mat & A, const Vec & b)
@@ -79,7 +92,7 @@ Vec eigvals_sym(const Mat & A0)
     L off = 0;
     for (int p = 0; p < n; ++p)
       for (int q = p + 1; q < n; ++q) off += A(p, q) * A(p, q);
-    if (off <= 1e-40L * (1 + maxabs(A) * maxabs(A))) break;
+    if (off <= 1e-38L * maxabs(A) * maxabs(A)) break;  // relative: the scale of A is arbitrary (1e-26 ... 1e12)
     for (int p = 0; p < n; ++p)
       for (int q = p + 1; q < n; ++q) {
         if (A(p, q) == 0) continue;
